@@ -1122,7 +1122,92 @@ func runEqUnit(payload string) string {
 	return "ab=" + valEq(a, b) + " ba=" + valEq(b, a)
 }
 
+// ---------------------------------------------------------------------------
+// stream `eqseqs`: a slice / array of Stack or Condition handles as one leaf (repair F33)
+
+func genEqSeqs(r *rand.Rand, id, tier string) string {
+	kind := []string{"sl", "ar", "ps", "co"}[r.Intn(4)]
+	one := func() V {
+		if kind == "co" {
+			return genEqCond(r, 1, "n")
+		}
+		return genEqStack(r, 1, "n")
+	}
+	var as []V
+	for i, n := 0, r.Intn(4); i < n; i++ {
+		as = append(as, one())
+	}
+	bs := make([]V, len(as))
+	for i := range as {
+		bs[i] = cloneV(as[i])
+	}
+	tag := "copy"
+	switch k := r.Intn(10); {
+	case k < 3:
+	case k < 7 && len(bs) > 0:
+		i := r.Intn(len(bs)) // one point mutation in one element, at any position
+		var m string
+		bs[i], m = mutate(r, bs[i])
+		tag = "mut:" + m
+	case k == 7 && len(bs) > 1:
+		i := r.Intn(len(bs) - 1)
+		bs[i], bs[i+1] = bs[i+1], bs[i]
+		tag = "swap"
+	case k == 8 && len(bs) > 0:
+		bs = bs[:len(bs)-1]
+		tag = "fewer"
+	default:
+		bs = append(bs, one())
+		tag = "more"
+	}
+	return kind + " | " + V{T: 'A', Xs: as}.String() + " | " + V{T: 'A', Xs: bs}.String() + " | " + tag
+}
+
+func handleSeq(kind string, vs []V) any {
+	var et reflect.Type
+	switch kind {
+	case "co":
+		et = reflect.TypeOf(stackage.Condition{})
+	case "ps":
+		et = reflect.TypeOf(&stackage.Stack{})
+	default:
+		et = reflect.TypeOf(stackage.Stack{})
+	}
+	var sv reflect.Value
+	if kind == "ar" {
+		sv = reflect.New(reflect.ArrayOf(len(vs), et)).Elem()
+	} else {
+		sv = reflect.MakeSlice(reflect.SliceOf(et), len(vs), len(vs))
+	}
+	for i, v := range vs {
+		x := reflect.ValueOf(Build(v))
+		if kind == "ps" {
+			p := reflect.New(x.Type())
+			p.Elem().Set(x)
+			x = p
+		}
+		sv.Index(i).Set(x)
+	}
+	return sv.Interface()
+}
+
+func runEqSeqs(payload string) string {
+	parts := strings.Split(payload, " | ")
+	va, _ := parseV(strings.Fields(parts[1]))
+	vb, _ := parseV(strings.Fields(parts[2]))
+	a := stackage.And().Push(handleSeq(parts[0], va.Xs))
+	b := stackage.And().Push(handleSeq(parts[0], vb.Xs))
+	three := func(s string) string {
+		if strings.HasPrefix(s, "ne") {
+			return "ne"
+		}
+		return s
+	}
+	return "ab=" + three(isEq(a, b)) + " ba=" + three(isEq(b, a))
+}
+
 func init() {
+	streams["eqseqs"] = &stream{gen: genEqSeqs, run: runEqSeqs}
 	streams["eqpair"] = &stream{gen: genEqPair, run: runEqPair}
 	streams["equnit"] = &stream{gen: genEqUnit, run: runEqUnit}
 }
